@@ -92,9 +92,13 @@ NoReq == [kind |-> ""]
 Inf == 1000000
 
 Has(d) == d \in Dev
-\* a deleted, never persisted record keeps its body and expiry (only observable through the two deviations)
-KeepBodyP == mode = "mem" /\ Has("PatchResurrects")
-KeepBody == mode = "mem" /\ Has("Resurrect")
+\* A record that was never persisted keeps its body and expiry when it is deleted (only observable through the two
+\* resurrection deviations). Never persisted: every record of an in-memory swamp; in a disk swamp (write interval 0) a
+\* record whose creating call has not returned yet (the first flush happens at the end of that save).
+Unpersisted(k) ==
+  \/ mode = "mem"
+  \/ \E i \in Interferers : pc[i] \in {"rx", "gap", "ret"} /\ req[i].kind = "put" /\ req[i].k = k /\ out[i] = <<"CREATED">>
+Body(k) == ~rec[k].live /\ rec[k].grp # ""     \* a dead record whose body was kept
 
 Expired(r) == r.exp # 0 /\ r.exp < NOW
 
@@ -152,7 +156,7 @@ LegChoices(q, c, k) ==
 LegDev(q, c, lv) == IF LegDropped(q, c) /\ lv THEN "EmptyCandidates" ELSE "StaleCandidates"
 
 \* a dead record still filed in the expiration index (only arises with "Resurrect")
-Ghost(k) == ~rec[k].live /\ ix[k] # 0 /\ KeepBody
+Ghost(k) == Body(k) /\ ix[k] # 0 /\ Has("Resurrect")
 
 \* what the code evaluates at Visit (equals Criteria when Dev = {})
 Judged(q, c, k, lv) ==
@@ -270,7 +274,7 @@ Unlock(c) ==
   /\ pc' = [pc EXCEPT ![c] = IF res[c] = <<>> THEN "ret" ELSE "fin"]
   /\ UNCHANGED <<mode, rec, ix, held, req, cand, res, out, owner, alive, bad, used, nops>>
 
-Kill(k) == IF KeepBody \/ KeepBodyP THEN [rec[k] EXCEPT !.live = FALSE] ELSE Dead
+Kill(k) == IF (Has("Resurrect") \/ Has("PatchResurrects")) /\ Unpersisted(k) THEN [rec[k] EXCEPT !.live = FALSE] ELSE Dead
 
 \* shift: CloneAndDelete*Treasures calls deleteHandler for every record it took
 DelStep(c) ==
@@ -290,7 +294,7 @@ DelStep(c) ==
 \* patch-expired: applyPatchExpiredOne for every selected record
 PatchStep(c) ==
   /\ c \in Claimers /\ pc[c] = "fin" /\ req[c].kind = "pe" /\ todo[c] # <<>>
-  /\ \E rz \in (IF ~rec[Head(todo[c]).k].live /\ KeepBody THEN {TRUE, FALSE} ELSE {FALSE}) :
+  /\ \E rz \in (IF Body(Head(todo[c]).k) /\ Has("Resurrect") THEN {TRUE, FALSE} ELSE {FALSE}) :
      LET e == Head(todo[c])
          k == e.k
          q == req[c]
@@ -327,9 +331,9 @@ PatchStep(c) ==
 CReindex(c) ==
   /\ c \in Claimers /\ pc[c] = "fin" /\ req[c].kind = "pe" /\ todo[c] = <<>>
   /\ lock["expA"] = ""
-  /\ \E gz \in (IF KeepBody THEN {TRUE, FALSE} ELSE {FALSE}) :
+  /\ \E gz \in (IF Has("Resurrect") THEN {TRUE, FALSE} ELSE {FALSE}) :
      LET sel == {res[c][i].k : i \in DOMAIN res[c]}
-         ghosts == IF gz THEN {k \in sel : ~rec[k].live /\ rec[k].exp # 0} ELSE {}
+         ghosts == IF gz THEN {k \in sel : Body(k) /\ rec[k].exp # 0} ELSE {}
      IN /\ (gz => ghosts # {})
         /\ ix' = [k \in Keys |-> IF k \in sel THEN (IF rec[k].live \/ k \in ghosts THEN rec[k].exp ELSE 0) ELSE ix[k]]
         /\ held' = [k \in Keys |-> IF k \in sel THEN held[k] \ ExpIdx ELSE held[k]]
@@ -387,7 +391,7 @@ Apply(i) ==
             IF ~r.live /\ o.kind = "patch"
               THEN \* "PatchResurrects": the patcher fetched the record before somebody deleted it; a never persisted
                    \* record keeps its body, is patched and saved as if it were new
-                   \E rz \in (IF KeepBodyP /\ o.saw THEN {FALSE, TRUE} ELSE {FALSE}) :
+                   \E rz \in (IF Body(k) /\ Has("PatchResurrects") /\ o.saw THEN {FALSE, TRUE} ELSE {FALSE}) :
                      IF rz
                        THEN /\ rec' = [rec EXCEPT ![k] = nr]
                             /\ out' = [out EXCEPT ![i] = <<"PATCHED">>]
